@@ -33,6 +33,10 @@ package geom
 //@ typeinv CoordinatesType CTInv
 //@ typeinv Coordinates CoordInv
 
+//@ func Geometry.CoordinatesType
+//@   notypeinv
+//@   requires GShape(g)
+//@   ensures result == CTypeOf(g)
 //@ func Geometry.Type
 //@   ensures result == g.gtype && 0 <= result && result <= 6
 //@ func Geometry.IsGeometryCollection
@@ -54,26 +58,33 @@ package geom
 //@   requires g.gtype == gtype
 
 //@ func Geometry.MustAsGeometryCollection
-//@   requires g.gtype == 0
+//@   notypeinv
+//@   requires GShape(g) && g.gtype == 0
 //@   ensures g.ptr == nil ==> len(result.geoms) == 0 && result.ctype == 0
 //@   ensures g.ptr != nil ==> same(result, deref(g.ptr, GeometryCollection))
 //@ func Geometry.MustAsPoint
-//@   requires g.gtype == 1
+//@   notypeinv
+//@   requires GShape(g) && g.gtype == 1
 //@   ensures same(result, deref(g.ptr, Point))
 //@ func Geometry.MustAsLineString
-//@   requires g.gtype == 2
+//@   notypeinv
+//@   requires GShape(g) && g.gtype == 2
 //@   ensures same(result, deref(g.ptr, LineString))
 //@ func Geometry.MustAsPolygon
-//@   requires g.gtype == 3
+//@   notypeinv
+//@   requires GShape(g) && g.gtype == 3
 //@   ensures same(result, deref(g.ptr, Polygon))
 //@ func Geometry.MustAsMultiPoint
-//@   requires g.gtype == 4
+//@   notypeinv
+//@   requires GShape(g) && g.gtype == 4
 //@   ensures same(result, deref(g.ptr, MultiPoint))
 //@ func Geometry.MustAsMultiLineString
-//@   requires g.gtype == 5
+//@   notypeinv
+//@   requires GShape(g) && g.gtype == 5
 //@   ensures same(result, deref(g.ptr, MultiLineString))
 //@ func Geometry.MustAsMultiPolygon
-//@   requires g.gtype == 6
+//@   notypeinv
+//@   requires GShape(g) && g.gtype == 6
 //@   ensures same(result, deref(g.ptr, MultiPolygon))
 
 //@ func Point.AsGeometry
